@@ -293,6 +293,19 @@ package webrtc
 //@ modifies origin.SessionVersion, origin.SessionID, descr.Origin.SessionVersion, descr.Origin.SessionID
 //@ loop 0 invariant origin.SessionVersion == old(origin.SessionVersion) && origin.SessionID == old(origin.SessionID) && descr.Origin.SessionVersion == old(descr.Origin.SessionVersion)
 
+// What is serialised carries the stamped origin: at the point the description's text is
+// produced its o= line has the connection's saved session id and current version.
+//@ func (*PeerConnection).CreateOffer #origin
+//@ props C11
+//@ nosafety
+//@ requires pcValid(pc)
+//@ atcall (*sdp.SessionDescription).Marshal assert callarg0.Origin.SessionID == pc.sdpOrigin.SessionID && callarg0.Origin.SessionVersion == pc.sdpOrigin.SessionVersion
+//@ func (*PeerConnection).CreateAnswer #origin
+//@ props C11
+//@ nosafety
+//@ requires pcValid(pc)
+//@ atcall (*sdp.SessionDescription).Marshal assert callarg0.Origin.SessionID == pc.sdpOrigin.SessionID && callarg0.Origin.SessionVersion == pc.sdpOrigin.SessionVersion
+
 // ---------------------------------------------------------------- C21 (finality of Close)
 // The closed flag lives in the atomic.Bool that pc.isClosed points to: only close writes it.
 //@ field PeerConnection.isClosed* props C04 C21 C22 writers (*PeerConnection).close
@@ -804,6 +817,11 @@ package webrtc
 //@ requires ghost(nilCands) <= 1 && ((ghost(nilCands) == 1) == (g.state == ICEGathererStateComplete && !specPoolActive(g)))
 //@ requires !specPoolActive(g) ==> len(g.candidatePool) == 0
 //@ atcall localfn onLocalCandidateHandler assert ghost(nilCands) == 0
+// The gathering state that decides about the held-back nil is sampled before any pooled
+// candidate is handed to the application: a callback may take arbitrarily long, gathering may
+// complete meanwhile, and then the agent's own callback delivers the nil (pooling is already
+// off). This pins the order of the mechanism; the interleaving itself is not modelled.
+//@ atcall (*ICEGatherer).State assert ghost(cands) + ghost(convFail) == old(ghost(cands)) + old(ghost(convFail))
 //@ observe poolWasActive := old(specPoolActive(g))
 //@ observe stateBefore := old(g.state)
 //@ observe nilBefore := old(ghost(nilCands))
